@@ -61,9 +61,9 @@ func (n *node) attr(k string) string {
 	return ""
 }
 
-func raw(s string) *node     { return &node{src: s, dec: s} }
+func raw(s string) *node        { return &node{src: s, dec: s} }
 func ent(src, dec string) *node { return &node{src: src, dec: dec} }
-func comment(s string) *node { return &node{src: "<!-- " + s + " -->"} }
+func comment(s string) *node    { return &node{src: "<!-- " + s + " -->"} }
 
 // builder hands out unique tokens.
 type builder struct {
@@ -106,7 +106,7 @@ func (b *builder) inline() ([]*node, string) {
 		return []*node{
 			raw("T"),
 			el("script", raw("var "+z()+"=1;")),
-			raw("k"+id[:1]),
+			raw("k" + id[:1]),
 			comment(z()),
 			raw(id[1:]),
 		}, "Tk" + id
